@@ -66,6 +66,11 @@ SEEDS = {
         "nodes": {0: (0, (0, 2, 0, 2)), 4: (1, (0, 2, 1, 3)), 2: (2, (1, 3, 1, 3)), 3: (2, (2, 4, 3, 5))},
         "edges": [(0, 4), (4, 2), (4, 3)],
     },
+    # node ids whose products wrap in a narrow label dtype (16 * 32 = 0 mod 256); for uint8 worlds
+    "u8ids": {
+        "nodes": {16: (0, (0, 2, 0, 3)), 32: (1, (0, 2, 1, 4)), 48: (2, (1, 3, 1, 3)), 64: (1, (2, 4, 3, 6))},
+        "edges": [(16, 32), (32, 48), (16, 64)],
+    },
     # two divisions side by side (a refusal in one lineage while a stroke overwrites
     # both daughters of the other)
     "twodiv": {
